@@ -297,7 +297,19 @@ fn do_expand(case: &Value) -> Value {
                             fn visit_macro(&mut self, m: &'ast syn::Macro) {
                                 let name = m.path.segments.last().map(|s| s.ident.to_string()).unwrap_or_default();
                                 if matches!(name.as_str(), "write" | "writeln" | "format_args" | "panic" | "unreachable" | "matches") {
-                                    let r = m.parse_body_with(syn::punctuated::Punctuated::<syn::Expr, syn::Token![,]>::parse_terminated);
+                                    // (an argument may be named, and format_args! takes ANY identifier as a name, keywords included)
+                                    struct Arg;
+                                    impl syn::parse::Parse for Arg {
+                                        fn parse(input: syn::parse::ParseStream) -> syn::Result<Self> {
+                                            use syn::ext::IdentExt as _;
+                                            if input.peek(syn::Ident::peek_any) && input.peek2(syn::Token![=]) && !input.peek2(syn::Token![==]) {
+                                                input.call(syn::Ident::parse_any)?;
+                                                input.parse::<syn::Token![=]>()?;
+                                            }
+                                            input.parse::<syn::Expr>().map(|_| Arg)
+                                        }
+                                    }
+                                    let r = m.parse_body_with(syn::punctuated::Punctuated::<Arg, syn::Token![,]>::parse_terminated);
                                     if let Err(e) = r {
                                         if self.0.is_none() && name != "matches" {
                                             self.0 = Some(format!("{}!({}): {}", name, m.tokens, e));
